@@ -148,13 +148,21 @@ Definition oracle_mx_all (s s' : smx) (o : line) (r : list bytes) : list bytes :
        let got := pairs (skipn 1 r) in
        let special := beqb host [] || beqb host (bs "*") in
        let outs := resolve (hic s) lt host in
+       let dom_names := flat_map (fun pt => par_names (snd pt)) lt in
+       let without_domain_params (p : params) := filter (fun kv => negb (mem (fst kv) dom_names)) p in
        let expect_ps (o' : bytes * params) := fold_left (fun acc kv => ctx_set acc (fst kv) (snd kv)) (snd o') ps0 in
        if special then check (negb accepted) "C14:empty-or-star-host-accepted" else
        (* soundness on every history: an accepted host instantiates a registered domain *)
        (if accepted then
           check (existsb (fun pt => existsb (fun o' => beqb (fst o') (fst pt)) (resolve (hic s) [pt] host)) lt)
                 "C14:accepted-host-matches-no-registered-domain"
-        else check (params_eqb got ps0) "C14:rejection-left-parameters") ++
+        else
+          (* known finding F28: the lookup's backtracking deletes a parameter that was there BEFORE the lookup when a
+             domain parameter has the same name; any other change of the parameters by a rejection is a violation *)
+          if params_eqb got ps0 then []
+          else if params_eqb got (without_domain_params ps0) && negb (params_eqb ps0 (without_domain_params ps0))
+          then [bs "known:hosts-lookup-deleted-same-named-parameter"]
+          else [bs "C14:rejection-left-parameters"]) ++
        (* exact resolution while domains were only added, and on simple witnesses afterwards *)
        let wargs := snd (take_list (skipn 2 a)) in
        let simple :=
@@ -174,9 +182,12 @@ Definition oracle_mx_all (s s' : smx) (o : line) (r : list bytes) : list bytes :
            match instantiate ts vals with Some x => beqb x host | None => false end
          end in
        (if haddonly s || simple then
-          check (if accepted then existsb (fun o' => params_eqb (expect_ps o') got) outs
-                 else match outs with [] => true | _ => false end)
-                "C14:host-resolution-differs-from-documented-procedure"
+          if (if accepted then existsb (fun o' => params_eqb (expect_ps o') got) outs
+              else match outs with [] => true | _ => false end) then []
+          else if accepted && negb (params_eqb ps0 (without_domain_params ps0)) &&
+                  existsb (fun o' => params_eqb (fold_left (fun acc kv => ctx_set acc (fst kv) (snd kv)) (snd o') (without_domain_params ps0)) got) outs
+          then [bs "known:hosts-lookup-deleted-same-named-parameter"]
+          else [bs "C14:host-resolution-differs-from-documented-procedure"]
         else [])
      end)
   else if beqb op (bs "hadd") then check (negb (obs_is r "panic" && beqb (nth 1 r []) (bs "runtime"))) "C05:hosts-add-runtime-fault"
@@ -184,7 +195,8 @@ Definition oracle_mx_all (s s' : smx) (o : line) (r : list bytes) : list bytes :
   else [].
 
 Definition oracle_mx (s s' : smx) (o : line) (r : list bytes) : list bytes :=
-  filter (fun c => has_prefix c (mpid s) || beqb (mpid s) (bs "MX")) (oracle_mx_all s s' o r).
+  filter (fun c => has_prefix c (mpid s) || beqb (mpid s) (bs "MX") ||
+                   (has_prefix c (bs "known:hosts-lookup") && beqb (mpid s) (bs "C14"))) (oracle_mx_all s s' o r).
 
 Definition absorb_mx (s : smx) (o : line) (r : list bytes) : smx :=
   let op := arg 0 o in
